@@ -64,6 +64,12 @@ def ts_jobs(tier):
             base = {"max": mx, "min": mn, "tasks": ["ret"], "clients": [ops], "props": ["min_workers", "bounded"],
                     "window_at": k, "twin_prog": "progress"}
             out.append((dict(base, name="c10-minworkers-max{0}min{1}-op{2}".format(mx, mn, k)), full))
+    if thorough:
+        extra = []
+        for spec, regime in out:
+            if regime["name"] == "all-interleavings" and spec.get("window_at", 0) >= 1 and not spec.get("hold"):
+                extra.append((dict(spec, name=spec["name"] + "-wf", prefix_order="workers_first"), regime))
+        out += extra
     return out
 
 
